@@ -501,6 +501,18 @@ func parseStops(csv *csv.File, inheritWheelchairBoarding bool) []Stop {
 		stops[i].Parent = &stops[parentStopIndex]
 	}
 
+	// The parent links must form a forest. If a stop is its own ancestor, drop its parent link.
+	for i := range stops {
+		steps := 0
+		for ancestor := stops[i].Parent; ancestor != nil && steps <= len(stops); ancestor = ancestor.Parent {
+			if ancestor == &stops[i] {
+				stops[i].Parent = nil
+				break
+			}
+			steps++
+		}
+	}
+
 	// Inherit wheelchair boarding from parent stops if specified.
 	if inheritWheelchairBoarding {
 		for i := range stops {
